@@ -55,6 +55,28 @@ def server_wiring_rule(ck, P):
     cnt = mvt.exit_counts(P, b, lambda y: 1 if (y.get("k") == "mcall" and y.get("name") == "push" and ir.place_str(y["recv"]) == "self.tile_sources" and y.get("a") and ir.local_hid(y["a"][0]) == sh) else None)
     ck.check(sh is not None and cnt == {1}, "R-WIRING", b["q"], "the TileSource built from the reader is pushed to self.tile_sources exactly once on every successful path",
              "add_tile_source does not keep the source it built on every successful path (pushes per call: %s)" % sorted(cnt), ir.loc(b))
+    # routes of two sources never shadow each other: /tiles/a/{*path} and /tiles/a/3/{*path} overlap, axum prefers the longer one, and
+    # /tiles/a/3/x/y then reaches the source `a/3` with two path parts (404) although `a` holds the tile.  So a source is refused when
+    # its prefix is a prefix of an existing one OR the other way round (equality is the special case of both).
+    b = ats[0]
+    lets = comp.lets_of(b)
+    sw = []
+    for y, ps, _ in ir.walk(b["body"]):
+        if y.get("k") == "mcall" and y.get("name") == "starts_with" and y.get("a"):
+            g = [p_ for p_ in ps if p_.get("k") == "if" and ir.contains(p_["c"], lambda z: z is y)]
+            if g and ir.diverges(g[-1]["then"]) and not any(p_.get("k") == "un" and p_.get("op") == "!" and ir.contains(p_, lambda z: z is y) for p_ in ps):
+                sw.append((comp.deep_place(y["recv"], lets), comp.deep_place(y["a"][0], lets), g[-1]))
+    new_side = lambda s_: sh is not None and made[0]["pat"].get("name") is not None and s_.split(".")[0] == made[0]["pat"]["name"] and s_.endswith(".prefix")
+    both = [(a, c) for a, c, g in sw for a2, c2, g2 in sw if a == c2 and c == a2 and a != c and g is g2 and new_side(a) and c.endswith(".prefix")]
+    order = {id(y): i for i, y in enumerate(ir.walk_nodes(b["body"]))}
+    pushes = [y for y in ir.walk_nodes(b["body"]) if y.get("k") == "mcall" and y.get("name") == "push" and ir.place_str(y["recv"]) == "self.tile_sources"]
+    before = bool(both) and bool(pushes) and all(order[id(g)] < order[id(pushes[0])] for _, _, g in sw)
+    over_all = any(n.get("k") == "for" and ir.place_str(ir.strip(n["iter"])).startswith("self.tile_sources") and ir.contains(n["body"], lambda z: z.get("name") == "starts_with") for n in ir.walk_nodes(b["body"])) or \
+        any(n.get("k") == "mcall" and n.get("name") == "any" and ir.place_str(ir.strip(n["recv"])).startswith("self.tile_sources") and ir.contains(n, lambda z: z.get("name") == "starts_with") for n in ir.walk_nodes(b["body"]))
+    ck.check(bool(both) and before and over_all, "R-WIRING", b["q"] + "|routes-disjoint",
+             "a source is refused when its url prefix starts with an existing source's prefix or the other way round (checked against every existing source, before the push)",
+             "add_tile_source does not refuse a source whose url prefix contains, or is contained in, an existing source's prefix (starts_with guards found: %s): nested ids such as `a` and `a/3` "
+             "give overlapping routes, and requests for zoom 3 of `a` are answered by `a/3` with 404" % [(a, c) for a, c, _ in sw], ir.loc(b))
     b = st[0]
     for nm in ("add_tile_sources_to_app", "add_static_sources_to_app"):
         c = mvt.exit_counts(P, {"body": ir.fn_block(b)}, lambda y, nm=nm: 1 if (y.get("k") == "mcall" and (ir.callee(y) or "").endswith("TileServer::" + nm)) else None)
